@@ -121,7 +121,7 @@ def _to_fraction(m, subs=None):
     e = sympy.sympify(str(m))
     if subs:
         e = e.subs({sympy.Symbol(k): sympy.Rational(Fraction(v).numerator, Fraction(v).denominator) for k, v in subs.items()})
-    e = sympy.nsimplify(e) if e.is_Float else e
+    e = sympy.Rational(str(e)) if e.is_Float else e  # exact decimal value of a float, no guessing
     if e.is_Rational:
         return Fraction(int(e.p), int(e.q))
     e2 = sympy.simplify(e)
